@@ -1260,8 +1260,14 @@ def c05_streams(ctx):
         for q in variants:
             cs = [Case(q, "", "compile", ""), Case(q, "", "is_match", "c"), Case(q, "", "replace", "ac", "$1"), Case(q, "", "tokenize", "ac"), Case(q, "", "analyze", "ac")]
             gs.append(Group(cs, {"features": set(), "input": "ac", "kind": "edit-neighbourhood"}))
+    for fol in ["c", "[cd]", "c+", "(?:c|d)e", "(c)", "c{2}", "c?d", ".", "$", "\\d", "cc"]:
+        for cnt in ["18446744073709551615", "18446744073709551614", "9223372036854775808"]:
+            for body in ["(?:a|b)", "[ab]", "(a)", "."]:
+                p = "^" + body + "{" + cnt + "}" + fol
+                cs = [Case(p, "", "compile", ""), Case(p, "", "is_match", "ac"), Case(p, "", "replace", "ac", "x"), Case(p, "", "tokenize", "ac"), Case(p, "", "analyze", "ac")]
+                gs.append(Group(cs, {"features": set(), "input": "ac", "kind": "saturated-position"}))
     # regression corpus (past failures run on every check) + back-references to groups that are re-entered in a loop
-    corpus = [("(?:(a)\\1*a){2}", "aaab"), ("(?:.b?)*?(a)??\\1c", "abc"), ("(?:a{9223372036854775808})?", "a"), ("^(?:a|b)[cd]{2}", "ac"), ("a(b?)c", "ac"), ("(", "("), ("(?:^|a){18446744073709551615}?", "ba"), ("(?:b|^|.{3}){4000000000}?c", "abc")]
+    corpus = [("(?:(a)\\1*a){2}", "aaab"), ("(?:.b?)*?(a)??\\1c", "abc"), ("(?:a{9223372036854775808})?", "a"), ("^(?:a|b)[cd]{2}", "ac"), ("a(b?)c", "ac"), ("(", "("), ("(?:^|a){18446744073709551615}?", "ba"), ("(?:b|^|.{3}){4000000000}?c", "abc"), ("^(?:a|b){18446744073709551615}c", "ac"), ("^(?:a|b){18446744073709551615}[cd]+e", "ac")]
     for p, s in corpus:
         f = "q" if p == "(" else ""
         cs = [Case(p, f, "compile", ""), Case(p, f, "is_match", s), Case(p, f, "replace", s, "$1"), Case(p, f, "tokenize", s), Case(p, f, "analyze", s)]
